@@ -1108,10 +1108,14 @@ func filterENINotFound(podResources []daemon.PodResources, attachedENIID map[str
 					}
 					if !found {
 						podResources[i].Resources = append(podResources[i].Resources[:j], podResources[i].Resources[j+1:]...)
+						// the next item moved to index j
+						j--
 					}
 				} else {
 					if _, ok := attachedENIID[eniID]; !ok {
 						podResources[i].Resources = append(podResources[i].Resources[:j], podResources[i].Resources[j+1:]...)
+						// the next item moved to index j
+						j--
 					}
 				}
 			}
